@@ -59,6 +59,13 @@ type c19Expiry struct {
 	Load string `json:"load,omitempty"`
 	// Junk: the NRx4 writes also have the unused bits 3-5 set (only bit 7 triggers and only bit 6 enables length)
 	Junk bool `json:"junk_bits,omitempty"`
+	// Env != 0 (channels 1, 2, 4): the NRx2 value used instead of F0: an envelope that fades the channel to volume 0
+	// long before the counter expires. Volume 0 is not "off": only DAC, power, sweep overflow and expiry clear the bit
+	Env uint8 `json:"env,omitempty"`
+	// Rewrite52: RewriteAt machine cycles after the trigger NR52 is written again with this value (bit 7 set: sound is
+	// on already, the write changes nothing); the counter must expire when it would have
+	Rewrite52 uint8 `json:"rewrite52,omitempty"`
+	RewriteAt int   `json:"rewrite_at,omitempty"`
 }
 
 func c19ExpiryCheck(l *explore.Local, _ struct{}, c c19Expiry) *explore.Fail {
@@ -85,7 +92,12 @@ func c19ExpiryCheck(l *explore.Local, _ struct{}, c c19Expiry) *explore.Fail {
 		func() *explore.Fail { return w(0xff26, 0x00) },
 		loadAt("off"),
 		func() *explore.Fail { return w(0xff26, 0x80) },
-		func() *explore.Fail { return w(r.dac, r.dacOn) },
+		func() *explore.Fail {
+			if c.Env != 0 && c.Ch != 2 {
+				return w(r.dac, c.Env)
+			}
+			return w(r.dac, r.dacOn)
+		},
 		func() *explore.Fail { return w(0xff13, 0xff) },
 		func() *explore.Fail { return w(0xff10, 0x00) },
 		loadAt(""),
@@ -136,6 +148,16 @@ func c19ExpiryCheck(l *explore.Local, _ struct{}, c c19Expiry) *explore.Fail {
 		return explore.Failf("harness: the expiry run did not start with a determined channel", "%s", ctx)
 	}
 	total := (p.mod.Ch[c.Ch].Len + 3) * 4096
+	if c.RewriteAt > 0 && c.RewriteAt < total {
+		if f := p.tick(c.RewriteAt, ctx); f != nil {
+			return f
+		}
+		ctx += fmt.Sprintf(", NR52<-%02x %d cycles after the trigger (sound already on)", c.Rewrite52, c.RewriteAt)
+		if f := w(0xff26, c.Rewrite52); f != nil {
+			return f
+		}
+		total -= c.RewriteAt
+	}
 	if f := p.tick(total, ctx); f != nil {
 		return f
 	}
@@ -393,7 +415,7 @@ func init() {
 					}
 				}
 			}, func() struct{} { return struct{}{} }, c19SweepCheck)
-		explore.Product(c.R, "expiry-runs", explore.PartOpt{Bound: "run to expiry, every cycle compared", Domain: "channel x t x half x enable mode x skew {0,1,700, and 1 or 2 cycles before the following frame-sequencer step}; length data written after / before / during the power-off that precedes the run"},
+		explore.Product(c.R, "expiry-runs", explore.PartOpt{Bound: "run to expiry, every cycle compared", Domain: "channel x t x half x enable mode x skew {0,1,700, and 1 or 2 cycles before the following frame-sequencer step}; length data written after / before / during the power-off that precedes the run; NR52 rewritten (80 / FF) while sound is on at 4 moments of the run; envelopes that fade to volume 0 long before the expiry"},
 			func(yield func(c19Expiry) bool) {
 				for ch := 0; ch < 4; ch++ {
 					var ts []uint8
@@ -404,6 +426,25 @@ func init() {
 					for t := 0; t < max; t++ {
 						if c.Thorough() || ch == 1 || t < 2 || t >= max-3 || t == max/2 {
 							ts = append(ts, uint8(t))
+						}
+					}
+					// NR52 written again while sound is on, in either half of a period; an envelope fading to volume 0
+					for _, first := range []bool{false, true} {
+						for _, t := range []uint8{uint8(max - 2), uint8(max - 9)} {
+							for _, at := range []int{5, 2053, 4101, 6149} {
+								for _, v := range []uint8{0x80, 0xff} {
+									if !yield(c19Expiry{Ch: ch, T: t, First: first, Rewrite52: v, RewriteAt: at}) {
+										return
+									}
+								}
+							}
+						}
+						if ch != 2 {
+							for _, env := range []uint8{0x11, 0x21, 0xf1, 0x73} {
+								if !yield(c19Expiry{Ch: ch, T: 0, First: first, Env: env}) {
+									return
+								}
+							}
 						}
 					}
 					for _, t := range ts {
